@@ -33,14 +33,17 @@ Qed.
 Section Seq.
   Variable types : list block_kind.
   Variable f : nat.
-  Hypothesis Hnb : no_blankline_kind types = true.
+  Variable md : bool.
+  (* how the loop takes a blank line: it skips it and notes the gap, or (Markdown token set) makes it a BlankLine block *)
+  Hypothesis Hblank : forall rec m B ln acc lo st,
+    dispatch_loop types rec (S m) (NL :: B) ln acc lo st = dispatch_loop types rec m B (ln + 1) (blank_entry md ln ++ acc) (lo || negb md) st.
 
   (* a block that takes all of A whatever follows the blank line, then a blank line, then B *)
   Lemma seq_step A B ln st p stA esB loB stB :
     A <> [] ->
     try_types types (tokenize_block types f) types (A ++ NL :: B) ln st = Some (p, length A, stA) ->
     tokenize_block types (S f) B (ln + nlines (length A) + 1) stA = (esB, loB, stB) ->
-    tokenize_block types (S f) (A ++ NL :: B) ln st = (p :: esB, true, stB).
+    tokenize_block types (S f) (A ++ NL :: B) ln st = (p :: blank_entry md (ln + nlines (length A)) ++ esB, negb md || loB, stB).
   Proof.
     intros Hne Ht HB. cbn [tokenize_block] in *. set (rec := tokenize_block types f) in *.
     destruct A as [|x X]; [contradiction|]. cbn [app dispatch_loop]. change (x :: X ++ NL :: B) with ((x :: X) ++ NL :: B). rewrite Ht.
@@ -49,9 +52,10 @@ Section Seq.
     rewrite Esk.
     replace (length ((x :: X) ++ NL :: B)) with (S (S (length X + length B))) by (rewrite app_length; cbn [length]; lia).
     cbn [length].
-    rewrite dispatch_nl by exact Hnb. rewrite dispatch_general.
+    rewrite Hblank. rewrite dispatch_general.
     rewrite <- (fuel_suffices types rec (S (length B)) (S (length X + length B)) B) by lia.
-    cbn [length] in HB. rewrite HB. reflexivity.
+    cbn [length] in HB. rewrite HB. cbn [orb]. f_equal. f_equal.
+    unfold blank_entry. destruct md; reflexivity.
   Qed.
 End Seq.
 
@@ -162,31 +166,32 @@ Proof.
   - discriminate.
 Qed.
 
-Lemma pre_of_quote ln ts : pre_of ln (FQuote ts) = PQuote ln (pre_seq ln ts).
+Lemma pre_of_quote md ln ts : pre_of md ln (FQuote ts) = PQuote ln (pre_seq md ln ts).
+Proof. reflexivity. Qed.
+Lemma pre_of_item md ln mk pad ts :
+  pre_of md ln (FItem mk pad ts) =
+  PList ln [PItem ln (pre_seq md ln ts) (negb md && (1 <? Z.of_nat (length ts))) 0 (Z.of_nat (length (marker_str mk) + pad)) (marker_str mk)].
+Proof. reflexivity. Qed.
+Lemma pre_seq_length ln ts : length (pre_seq false ln ts) = length ts.
 Proof.
-  reflexivity.
+  revert ln. induction ts as [|t r IH]; intros ln; [reflexivity|]. cbn [pre_seq length].
+  destruct r; [reflexivity|]. cbn [blank_entry app]. rewrite IH. reflexivity.
 Qed.
-Lemma pre_of_item ln mk pad ts :
-  pre_of ln (FItem mk pad ts) =
-  PList ln [PItem ln (pre_seq ln ts) (1 <? Z.of_nat (length ts)) 0 (Z.of_nat (length (marker_str mk) + pad)) (marker_str mk)].
-Proof.
-  reflexivity.
-Qed.
-Lemma pre_seq_length ln ts : length (pre_seq ln ts) = length ts.
-Proof. revert ln. induction ts as [|t r IH]; intros ln; [reflexivity|]. cbn [pre_seq length]. rewrite IH. reflexivity. Qed.
 
 Section Main.
   Variable types : list block_kind.
-  Hypothesis Hnb : no_blankline_kind types = true.
+  Variable md : bool.
+  Hypothesis Hblank : forall rec m B ln acc lo st,
+    dispatch_loop types rec (S m) (NL :: B) ln acc lo st = dispatch_loop types rec m B (ln + 1) (blank_entry md ln ++ acc) (lo || negb md) st.
   Hypothesis Hq : quote_first types = true.
   Hypothesis Hl : list_first types = true.
   Hypothesis Hp : In BK_Paragraph types.
   Hypothesis Hf : fence_first types = true.
 
   Definition P (f : nat) : Prop := forall t ln st, wf_b t = true -> (depth t <= f)%nat ->
-    tokenize_block types (S f) (text_of (spell t)) ln st = ([pre_of ln t], false, st_after st t).
+    tokenize_block types (S f) (text_of (spell t)) ln st = ([pre_of md ln t], false, st_after st t).
   Definition Q (f : nat) : Prop := forall ts ln st, seq_ok_b ts = true -> forallb wf_b ts = true -> Forall (fun t => (depth t <= f)%nat) ts ->
-    tokenize_block types (S f) (text_of (join_blank (map spell ts))) ln st = (pre_seq ln ts, 1 <? Z.of_nat (length ts), st_seq st ts).
+    tokenize_block types (S f) (text_of (join_blank (map spell ts))) ln st = (pre_seq md ln ts, negb md && (1 <? Z.of_nat (length ts)), st_seq st ts).
   (* what may follow a block after a blank line: anything, except that after a list it must be a line that is neither a
      continuation of the item nor a list marker *)
   Definition follower_ok (t : ftree) (B : list str) : Prop :=
@@ -198,7 +203,7 @@ Section Main.
     text_of (spell t) <> [] /\
     forall B, follower_ok t B ->
               try_types types (tokenize_block types f) types (text_of (spell t) ++ NL :: B) ln st =
-              Some (pre_of ln t, length (text_of (spell t)), st_after st t).
+              Some (pre_of md ln t, length (text_of (spell t)), st_after st t).
 
   Lemma depth_children t ts f : In t ts -> (S (fold_right (fun t m => Nat.max (depth t) m) 0%nat ts) <= S f)%nat -> (depth t <= f)%nat.
   Proof.
@@ -210,7 +215,7 @@ Section Main.
   Proof. intros H. apply Forall_forall. intros t Hin. eapply depth_children; eassumption. Qed.
 
   Lemma para_try rec c body ln st : wf_b (FPara c body) = true ->
-    try_types types rec types (text_of (spell (FPara c body))) ln st = Some (pre_of ln (FPara c body), 1%nat, st).
+    try_types types rec types (text_of (spell (FPara c body))) ln st = Some (pre_of md ln (FPara c body), 1%nat, st).
   Proof.
     intros Hw. cbn [wf_b] in Hw. apply andb_true_iff in Hw as [Hw _]. apply andb_true_iff in Hw as [Hw _]. apply plain_line_reflect in Hw.
     cbn [spell text_of map render_line pre_of]. unfold line_of. cbn [repeat app].
@@ -223,7 +228,7 @@ Section Main.
   Proof. reflexivity. Qed.
 
   Lemma para_tokenize f c body ln st : wf_b (FPara c body) = true ->
-    tokenize_block types (S f) (text_of (spell (FPara c body))) ln st = ([pre_of ln (FPara c body)], false, st).
+    tokenize_block types (S f) (text_of (spell (FPara c body))) ln st = ([pre_of md ln (FPara c body)], false, st).
   Proof.
     intros Hw. rewrite tokenize_S. pose proof (para_try (tokenize_block types f) c body ln st Hw) as T.
     cbn [spell text_of map length] in *. cbn [dispatch_loop]. rewrite T. reflexivity.
@@ -251,7 +256,7 @@ Section Main.
 
   Lemma fence_try rec ch n content rest ln st : wf_b (FFence ch n content) = true ->
     try_types types rec types (text_of (spell (FFence ch n content)) ++ rest) ln st =
-    Some (pre_of ln (FFence ch n content), length (text_of (spell (FFence ch n content))), st).
+    Some (pre_of md ln (FFence ch n content), length (text_of (spell (FFence ch n content))), st).
   Proof.
     intros Hw. destruct (fence_wf ch n content Hw) as (Hfo & Hok & Hnf).
     rewrite fence_text by (destruct Hfo as [_ H3]; lia).
@@ -260,11 +265,11 @@ Section Main.
 
   Lemma fence_try_nil rec ch n content ln st : wf_b (FFence ch n content) = true ->
     try_types types rec types (text_of (spell (FFence ch n content))) ln st =
-    Some (pre_of ln (FFence ch n content), length (text_of (spell (FFence ch n content))), st).
+    Some (pre_of md ln (FFence ch n content), length (text_of (spell (FFence ch n content))), st).
   Proof. intros Hw. pose proof (fence_try rec ch n content [] ln st Hw) as T. rewrite app_nil_r in T. exact T. Qed.
 
   Lemma fence_tokenize f ch n content ln st : wf_b (FFence ch n content) = true ->
-    tokenize_block types (S f) (text_of (spell (FFence ch n content))) ln st = ([pre_of ln (FFence ch n content)], false, st).
+    tokenize_block types (S f) (text_of (spell (FFence ch n content))) ln st = ([pre_of md ln (FFence ch n content)], false, st).
   Proof.
     intros Hw. rewrite tokenize_S.
     pose proof (fence_try_nil (tokenize_block types f) ch n content ln st Hw) as T.
@@ -276,7 +281,7 @@ Section Main.
   Qed.
 
   Lemma para_try_app rec c body B ln st : wf_b (FPara c body) = true ->
-    try_types types rec types (text_of (spell (FPara c body)) ++ NL :: B) ln st = Some (pre_of ln (FPara c body), 1%nat, st).
+    try_types types rec types (text_of (spell (FPara c body)) ++ NL :: B) ln st = Some (pre_of md ln (FPara c body), 1%nat, st).
   Proof.
     intros Hw. pose proof (para_try rec c body ln st Hw) as T. cbn [spell text_of map app] in *.
     destruct (try_types_app types rec B (render_line (SLine 0 c body)) [] ln st types) as [T1 _].
@@ -334,7 +339,7 @@ Section Main.
       split; [discriminate|]. intros B _.
       pose proof (try_types_quote types (tokenize_block types (S f')) true l ls ln st types Hq Hok) as T.
       assert (HN : tokenize_block types (S f') (l :: ls) ln (mkPs false) =
-                   (pre_seq ln ts, 1 <? Z.of_nat (length ts), st_seq (mkPs false) ts))
+                   (pre_seq md ln ts, negb md && (1 <? Z.of_nat (length ts)), st_seq (mkPs false) ts))
         by (rewrite Ei; apply (HQ ts ln (mkPs false) Hs Hall (children_depth ts f' Hd))).
       rewrite HN in T. cbn [fst] in T.
       cbn [map] in *. destruct (try_types_app types (tokenize_block types (S f')) B (qline true l) (map (qline true) ls) ln st types) as [T1 _].
@@ -354,7 +359,8 @@ Section Main.
       rewrite start_read_list_tail by assumption.
       change (map render_line (SLine 0 c0 body0 :: rest)) with (text_of (SLine 0 c0 body0 :: rest)). rewrite <- El.
       rewrite (HQ ts ln st Hs Hall (children_depth ts f' Hd)).
-      rewrite pre_of_item, pre_seq_length. unfold nlines. rewrite andb_diag. cbn [length st_after]. rewrite map_length. reflexivity.
+      rewrite pre_of_item. cbn [length st_after]. rewrite map_length.
+      destruct md; [rewrite andb_false_r; reflexivity|]. rewrite pre_seq_length. unfold nlines. cbn [negb andb]. rewrite andb_diag. reflexivity.
   Qed.
 
   Lemma Q_from f : P f -> C f -> Q f.
@@ -362,7 +368,7 @@ Section Main.
     intros HP HC. intros ts. induction ts as [|t1 r IH]; intros ln st Hs Hall Hd; [discriminate|].
     cbn [forallb] in Hall. apply andb_true_iff in Hall as [Hw1 Hallr]. inversion Hd as [|? ? Hd1 Hdr]; subst.
     destruct r as [|t2 r].
-    - cbn [map join_blank flat_map]. rewrite app_nil_r. rewrite (HP t1 ln st Hw1 Hd1). reflexivity.
+    - cbn [map join_blank flat_map]. rewrite app_nil_r. rewrite (HP t1 ln st Hw1 Hd1). cbn [pre_seq length]. rewrite andb_false_r. reflexivity.
     - cbn [seq_ok_b] in Hs. apply andb_true_iff in Hs as [Hi Hsr]. apply negb_true_iff in Hi.
       change (map spell (t1 :: t2 :: r)) with (spell t1 :: spell t2 :: map spell r). rewrite text_join.
       destruct (HC t1 ln st Hw1 Hd1) as (Hne & Ht).
@@ -374,10 +380,12 @@ Section Main.
         unfold join_blank, text_of in *. rewrite map_app, E2. reflexivity. }
       specialize (IH (ln + nlines (length (text_of (spell t1))) + 1) (st_after st t1) Hsr Hallr Hdr).
       change (spell t2 :: map spell r) with (map spell (t2 :: r)) in *.
-      rewrite (seq_step types f Hnb _ _ ln st _ _ _ _ _ Hne (Ht _ Hfol) IH).
-      cbn [pre_seq length st_seq fold_left].
+      rewrite (seq_step types f md Hblank _ _ ln st _ _ _ _ _ Hne (Ht _ Hfol) IH).
       assert (H : nlines (length (text_of (spell t1))) = height t1) by (unfold height, text_of, nlines; rewrite map_length; reflexivity).
-      rewrite H. assert (1 <? Z.of_nat (S (S (length r))) = true) as -> by (apply Z.ltb_lt; lia). reflexivity.
+      rewrite H. cbn [pre_seq length st_seq fold_left].
+      assert (1 <? Z.of_nat (S (S (length r))) = true) as -> by (apply Z.ltb_lt; lia).
+      assert (1 <? Z.of_nat (S (length r)) = true \/ 1 <? Z.of_nat (S (length r)) = false) as [-> | ->] by (destruct (1 <? Z.of_nat (S (length r))); auto);
+        destruct md; reflexivity.
   Qed.
 
   Lemma P_succ f : Q f -> P (S f).
@@ -398,7 +406,8 @@ Section Main.
       cbv zeta in LW. rewrite LW. clear LW.
       change (map render_line (SLine 0 c0 body0 :: rest)) with (text_of (SLine 0 c0 body0 :: rest)). rewrite <- El.
       rewrite (HQ ts ln st Hs Hall (children_depth ts f Hd)).
-      rewrite pre_of_item, pre_seq_length. unfold nlines. rewrite andb_diag. reflexivity.
+      rewrite pre_of_item.
+      destruct md; [rewrite andb_false_r; reflexivity|]. rewrite pre_seq_length. unfold nlines. cbn [negb andb]. rewrite andb_diag. reflexivity.
   Qed.
 
   Lemma P_zero : P 0.
@@ -417,11 +426,11 @@ Section Main.
   Qed.
 
   Theorem fragment_tree t f ln st : wf_b t = true -> (depth t <= f)%nat ->
-    tokenize_block types (S f) (text_of (spell t)) ln st = ([pre_of ln t], false, st_after st t).
+    tokenize_block types (S f) (text_of (spell t)) ln st = ([pre_of md ln t], false, st_after st t).
   Proof. intros Hw Hd. exact (proj1 (fragment_all f) t ln st Hw Hd). Qed.
 End Main.
 
-(* ---- the token configurations that are modelled qualify (Markdown's has a BlankLine token: outside) ---- *)
+(* ---- the token configurations that are modelled qualify ---- *)
 From Mistletoe Require Import Model.Parser.
 Definition fragment_config (types : list block_kind) : bool :=
   no_blankline_kind types && quote_first types && list_first types && existsb (fun k => kind_eqb k BK_Paragraph) types && fence_first types.
@@ -430,10 +439,24 @@ Lemma fragment_configs :
 Proof. vm_compute. reflexivity. Qed.
 
 Theorem fragment_tree_cfg types t f ln st : fragment_config types = true -> wf_b t = true -> (depth t <= f)%nat ->
-  tokenize_block types (S f) (text_of (spell t)) ln st = ([pre_of ln t], false, st_after st t).
+  tokenize_block types (S f) (text_of (spell t)) ln st = ([pre_of false ln t], false, st_after st t).
 Proof.
   unfold fragment_config. intros H. repeat rewrite andb_true_iff in H. destruct H as [[[[H1 H2] H3] H4] H5].
-  apply fragment_tree; try assumption. apply in_dec_paragraph. exact H4.
+  apply (fragment_tree types false); try assumption; [|apply in_dec_paragraph; exact H4].
+  intros rec m B ln0 acc lo st0. rewrite dispatch_nl by exact H1. cbn [blank_entry app negb]. rewrite orb_true_r. reflexivity.
+Qed.
+
+(* the token set of the Markdown renderer: a blank line is a BlankLine block *)
+Lemma markdown_blank rec m B ln acc lo st :
+  dispatch_loop block_types_markdown rec (S m) (NL :: B) ln acc lo st =
+  dispatch_loop block_types_markdown rec m B (ln + 1) (blank_entry true ln ++ acc) (lo || negb true) st.
+Proof. cbn [dispatch_loop]. cbn [blank_entry app negb]. rewrite orb_false_r. reflexivity. Qed.
+
+Theorem fragment_tree_markdown t f ln st : wf_b t = true -> (depth t <= f)%nat ->
+  tokenize_block block_types_markdown (S f) (text_of (spell t)) ln st = ([pre_of true ln t], false, st_after st t).
+Proof.
+  apply (fragment_tree block_types_markdown true); try reflexivity; [exact markdown_blank|].
+  apply in_dec_paragraph. reflexivity.
 Qed.
 
 (* non-vacuity: a fence inside a list inside a quote inside a list ... *)
@@ -449,26 +472,41 @@ Proof. vm_compute. repeat split; reflexivity. Qed.
 (* ---- the token tree: the inline phase on the fragment ---- *)
 From Mistletoe Require Import Model.Tree Model.Inline Model.Build.
 
-Fixpoint tok_of (t : ftree) : tok :=
-  match t with
-  | FPara c body => Paragraph [RawText (c :: body)]
-  | FFence ch n content => CodeFence (mkFence 0 (repeat ch n) [] [] (concat (map render_line content)))
-  | FQuote ts => Quote (map tok_of ts)
-  | FItem mk pad ts =>
-    let leader := marker_str mk in
-    let loose := 1 <? Z.of_nat (length ts) in
-    List (if slen leader =? 1 then None else Some (int_of_digits (removelast leader))) loose
-         [ListItem (mkItem leader 0 (Z.of_nat (length leader + pad)) loose) (map tok_of ts)]
-  end.
+Section TokOf.
+  Variable md : bool.
+  Definition blank_tok : list tok := if md then [BlankLine] else [].
+  Fixpoint tok_of (t : ftree) : tok :=
+    let seq := (fix seq (ts : list ftree) : list tok :=
+                  match ts with
+                  | [] => []
+                  | t :: r => tok_of t :: match r with [] => [] | _ => blank_tok ++ seq r end
+                  end) in
+    match t with
+    | FPara c body => Paragraph [RawText (c :: body)]
+    | FFence ch n content => CodeFence (mkFence 0 (repeat ch n) [] [] (concat (map render_line content)))
+    | FQuote ts => Quote (seq ts)
+    | FItem mk pad ts =>
+      let leader := marker_str mk in
+      let loose := negb md && (1 <? Z.of_nat (length ts)) in
+      List (if slen leader =? 1 then None else Some (int_of_digits (removelast leader))) loose
+           [ListItem (mkItem leader 0 (Z.of_nat (length leader + pad)) loose) (seq ts)]
+    end.
+  Fixpoint tok_seq (ts : list ftree) : list tok :=
+    match ts with
+    | [] => []
+    | t :: r => tok_of t :: match r with [] => [] | _ => blank_tok ++ tok_seq r end
+    end.
+End TokOf.
 
 Section Tokens.
   Variable span_types : list span_kind.
   Variable keep : bool.
   Variable fn : footnotes.
+  Variable md : bool.
   Hypothesis Hquiet : forallb kind_quiet (removelast span_types) = true.
 
   Lemma build_fragment : forall f t ln, (depth t <= f)%nat -> wf_b t = true ->
-    build span_types keep fn (pre_of ln t) = Some (tok_of t).
+    build span_types keep fn (pre_of md ln t) = Some (tok_of md t).
   Proof.
     induction f as [|f IH]; intros t ln Hd Hw.
     - destruct t as [c body|ch n content|ts|mk pad ts]; [|reflexivity|cbn [depth] in Hd; lia|cbn [depth] in Hd; lia].
@@ -478,10 +516,12 @@ Section Tokens.
       destruct (strip_line (c :: body) Hw) as [S _]. rewrite S.
       unfold inline. destruct Hw as (Hp & _ & Hne & _). rewrite tokenize_inner_plain by assumption. reflexivity.
     - assert (Kids : forall ts ln, Forall (fun t => (depth t <= f)%nat) ts -> forallb wf_b ts = true ->
-                flat_map (fun e => match build span_types keep fn e with Some t => [t] | None => [] end) (pre_seq ln ts) = map tok_of ts).
+                flat_map (fun e => match build span_types keep fn e with Some t => [t] | None => [] end) (pre_seq md ln ts) = tok_seq md ts).
       { induction ts as [|t0 r IHr]; intros ln0 Hds Hws; [reflexivity|].
         inversion Hds; subst. cbn [forallb] in Hws. apply andb_true_iff in Hws as [Hw1 Hwr].
-        cbn [pre_seq flat_map map]. rewrite (IH t0 ln0) by assumption. cbn [app]. f_equal. apply IHr; assumption. }
+        cbn [pre_seq flat_map tok_seq]. rewrite (IH t0 ln0) by assumption. cbn [app]. f_equal.
+        destruct r as [|t1 r']; [reflexivity|]. rewrite flat_map_app. rewrite IHr by assumption.
+        f_equal. unfold blank_entry, blank_tok. destruct md; reflexivity. }
       destruct t as [c body|ch n content|ts|mk pad ts]; [|reflexivity| |].
       + cbn [wf_b] in Hw. apply andb_true_iff in Hw as [Hw _]. apply andb_true_iff in Hw as [Hw _]. apply plain_line_reflect in Hw.
         cbn [pre_of build map concat tok_of]. rewrite app_nil_r.
@@ -489,10 +529,10 @@ Section Tokens.
         destruct (strip_line (c :: body) Hw) as [S _]. rewrite S.
         unfold inline. destruct Hw as (Hp & _ & Hne & _). rewrite tokenize_inner_plain by assumption. reflexivity.
       + cbn [wf_b] in Hw. repeat rewrite andb_true_iff in Hw. destruct Hw as [[_ Hall] _].
-        rewrite pre_of_quote. cbn [build tok_of]. rewrite Kids; [reflexivity| |exact Hall].
+        rewrite pre_of_quote. cbn [build]. rewrite Kids; [reflexivity| |exact Hall].
         apply children_depth. cbn [depth] in Hd. exact Hd.
       + cbn [wf_b] in Hw. repeat rewrite andb_true_iff in Hw. destruct Hw as [[[[[[_ _] _] _] Hall] _] _].
-        rewrite pre_of_item. cbn [build flat_map app tok_of existsb i_loose i_leader orb].
+        rewrite pre_of_item. cbn [build flat_map app existsb i_loose i_leader orb].
         rewrite Kids; [rewrite orb_false_r; reflexivity| |exact Hall].
         apply children_depth. cbn [depth] in Hd. exact Hd.
   Qed.
@@ -501,8 +541,16 @@ End Tokens.
 (* parse-after-write on the fragment, through the inline phase: the token tree is the tree the text was written from *)
 Theorem fragment_token_tree types span_types keep fn t f ln st :
   fragment_config types = true -> forallb kind_quiet (removelast span_types) = true -> wf_b t = true -> (depth t <= f)%nat ->
-  make_tokens span_types keep fn (fst (fst (tokenize_block types (S f) (text_of (spell t)) ln st))) = [tok_of t].
+  make_tokens span_types keep fn (fst (fst (tokenize_block types (S f) (text_of (spell t)) ln st))) = [tok_of false t].
 Proof.
   intros Hc Hq Hw Hd. rewrite fragment_tree_cfg by assumption. cbn [fst]. unfold make_tokens. cbn [flat_map].
-  rewrite (build_fragment span_types keep fn Hq f t ln Hd Hw). reflexivity.
+  rewrite (build_fragment span_types keep fn false Hq f t ln Hd Hw). reflexivity.
+Qed.
+
+Theorem fragment_token_tree_markdown span_types keep fn t f ln st :
+  forallb kind_quiet (removelast span_types) = true -> wf_b t = true -> (depth t <= f)%nat ->
+  make_tokens span_types keep fn (fst (fst (tokenize_block block_types_markdown (S f) (text_of (spell t)) ln st))) = [tok_of true t].
+Proof.
+  intros Hq Hw Hd. rewrite fragment_tree_markdown by assumption. cbn [fst]. unfold make_tokens. cbn [flat_map].
+  rewrite (build_fragment span_types keep fn true Hq f t ln Hd Hw). reflexivity.
 Qed.
